@@ -108,13 +108,8 @@ def run(ctx):
                 "(2-byte, bit-field and neighbouring items preferred, TempUnits + temperature items included), patches aimed at item boundaries "
                 "(straddling, one byte of a 2-byte item, miss by one, full refresh), duplicate registrations; callbacks per operation and final block "
                 "compared with Model/Notify.v; non-trivial = history in which at least one callback fired and at least one touched item stayed silent")
-    try:
-        mods = gen_tables.gen_tables()
-        ctx.oblige("gen:tables", True)
-    except Exception as e:
-        ctx.oblige("gen:tables", False, repr(e))
-        mods = gen_tables.load_tables()
     ctx.prove(timeout=2400)
+    mods = gen_tables.load_tables()
     import importlib
     rng = ctx.rng
     cands = [m for m in mods if m["kind"] != "KPack" and len(m["items"]) > 20]
